@@ -79,7 +79,7 @@ theorem C04_wrong_format {F} (o : FOps F) (s : WState F) (c : Chunk) (hd : s.don
 /-- exact integer arithmetic is a model of the float laws for any positive scale -/
 def intOps (sc off : Int) : FOps Int :=
   { render := fun _ x => x * sc + off, gt := fun a b => decide (a > b), lt := fun a b => decide (a < b),
-    bits := fun x => (x % (2 ^ 64 : Nat)).toNat, lowest := -(2 ^ 62), highest := 2 ^ 62, zero := 0 }
+    bits := fun x => (x % (2 ^ 64 : Nat)).toNat, ofBits := fun n => (n : Int), lowest := -(2 ^ 62), highest := 2 ^ 62, zero := 0 }
 
 theorem intOps_laws (sc off : Int) (hs : 0 < sc) (hb : ∀ x : Int, -(2 ^ 62) ≤ x * sc + off ∧ x * sc + off ≤ 2 ^ 62 → True) :
     Laws (intOps sc off) (fun _ => True) :=
